@@ -167,6 +167,13 @@ class PoolHandler:
         self._aspire_instance = value
 
     def __enter__(self):
+        # A stack: the handler may be entered again while it is active, and
+        # each exit must put back what its own entry replaced
+        if not hasattr(self, "_saved"):
+            self._saved = []
+        self._saved.append(
+            (self.aspire_instance.log_likelihood, self.aspire_instance.log_prior)
+        )
         self.original_log_likelihood = self.aspire_instance.log_likelihood
         self.original_log_prior = self.aspire_instance.log_prior
         if self.pool is not None:
@@ -182,8 +189,9 @@ class PoolHandler:
         return self.pool
 
     def __exit__(self, exc_type, exc_value, traceback):
-        self.aspire_instance.log_likelihood = self.original_log_likelihood
-        self.aspire_instance.log_prior = self.original_log_prior
+        log_likelihood, log_prior = self._saved.pop()
+        self.aspire_instance.log_likelihood = log_likelihood
+        self.aspire_instance.log_prior = log_prior
         if self.close_pool and self.pool is not None:
             logger.debug("Closing pool")
             self.pool.close()
